@@ -14,6 +14,12 @@
 (*   gear           first step = trapezoidal.step (which already adds),     *)
 (*                  later (theta, xi) = (1, 1/2); last := residual          *)
 (*                                                                         *)
+(* dt is a scalar or, with the local-time-step directive, one value per    *)
+(* cell (dtmode = "local": hv[i] = hh * Factor(i)): the diagonal of the     *)
+(* system is (1+xi)/dt_i, the solution is divided by dt_i, cell i advances  *)
+(* by dt_i and the time by min(dt).  The defining relations then carry      *)
+(* D = diag(dt): (I - D A) Q+ = Q, etc.                                     *)
+(*                                                                         *)
 (* and the relations that DEFINE the schemes (C06), as invariants.          *)
 (***************************************************************************)
 EXTENDS Rat
@@ -23,16 +29,17 @@ CONSTANTS Ns,          \* set of problem sizes
           Operators,   \* subset of {"upwind", "central", "kappa13"}
           ImplKinds,   \* subset of {"implicit", "cranknicolson", "gear"}
           MaxSteps,
-          ImplDeviations   \* {} or subset of {"GearDoubleAdd", "NoisyJacobian"}
+          DtModes,     \* subset of {"global", "local"}
+          ImplDeviations   \* {} or subset of {"GearDoubleAdd", "NoisyJacobian", "RowScaledLocal"}
 
-VARIABLES n, op, ikind, hh,     \* fixed per behaviour: size, operator, integrator, dt (dx = 1)
+VARIABLES n, op, ikind, hh, dtmode,   \* fixed per behaviour: size, operator, integrator, dt (dx = 1), scalar / per-cell dt
           q, qprev, qprev2,      \* current state and the two before it (history, for the relations)
           time, nsteps,
           jac, jacCached,        \* Jacobian on the solver object
           resid, last, hasLast,  \* self.residual, self._lastresidual
           pc, first              \* first: this step is gear's start-up
 
-ivars == <<n, op, ikind, hh, q, qprev, qprev2, time, nsteps, jac, jacCached, resid, last, hasLast, pc, first>>
+ivars == <<n, op, ikind, hh, dtmode, q, qprev, qprev2, time, nsteps, jac, jacCached, resid, last, hasLast, pc, first>>
 
 (* circulant operators on n cells, dx = 1, convection speed +1 *)
 Wrap(i, m) == ((((i - 1) % m) + m) % m) + 1
@@ -50,7 +57,14 @@ Xi    == IF ikind = "gear" /\ ~first THEN Half ELSE Zero
 
 States(m) == [1..m -> {R(-1), Zero, One}]
 
-IInit == /\ n \in Ns /\ op \in Operators /\ ikind \in ImplKinds /\ hh \in DtOverDx
+(* per-cell steps: hh times a factor that differs from cell to cell (minimum factor 1, so min(dt) = hh) *)
+Factor(i) == CASE i % 3 = 1 -> R(2) [] i % 3 = 2 -> One [] OTHER -> Q(3, 2)
+HV == [i \in 1..n |-> IF dtmode = "local" THEN RMul(hh, Factor(i)) ELSE hh]
+RowScale(v, M) == [i \in 1..Len(M) |-> VScale(v[i], M[i])]          \* diag(v) M
+DiagOf(v) == [i \in 1..Len(v) |-> [j \in 1..Len(v) |-> IF i = j THEN v[i] ELSE Zero]]
+VInv(v) == [i \in 1..Len(v) |-> RInv(v[i])]
+
+IInit == /\ n \in Ns /\ op \in Operators /\ ikind \in ImplKinds /\ hh \in DtOverDx /\ dtmode \in DtModes
          /\ q \in States(n) /\ qprev = q /\ qprev2 = q
          /\ time = Zero /\ nsteps = 0
          /\ jac = ZeroM(n, n) /\ jacCached = FALSE
@@ -68,23 +82,25 @@ CalcJacobian == /\ pc = "jac" /\ nsteps < MaxSteps
                                THEN MScale(Q(9, 8), FDJac) ELSE FDJac
                 /\ jacCached' = TRUE
                 /\ pc' = "rhs"
-                /\ UNCHANGED <<n, op, ikind, hh, q, qprev, qprev2, time, nsteps, resid, last, hasLast, first>>
+                /\ UNCHANGED <<n, op, ikind, hh, dtmode, q, qprev, qprev2, time, nsteps, resid, last, hasLast, first>>
 
 CalcRhs == /\ pc = "rhs" /\ resid' = Rhs(q) /\ pc' = "solve"
-           /\ UNCHANGED <<n, op, ikind, hh, q, qprev, qprev2, time, nsteps, jac, jacCached, last, hasLast, first>>
+           /\ UNCHANGED <<n, op, ikind, hh, dtmode, q, qprev, qprev2, time, nsteps, jac, jacCached, last, hasLast, first>>
 
 SolveImplicit ==
   /\ pc = "solve"
-  /\ LET mat == MSub(MScale(RDiv(RAdd(One, Xi), hh), Ident(n)), MScale(Theta, jac))
+  /\ LET mat == MSub(DiagOf(VScale(RAdd(One, Xi), VInv(HV))), MScale(Theta, jac))
          rhs == IF Xi = Zero THEN resid ELSE VAdd(resid, VScale(Xi, last))
          x   == Solve(mat, rhs)
-     IN resid' = VScale(RInv(hh), x)
+         \* seeded deviation: unit diagonal, each ROW scaled by its step (the unknown is then dQ/dt, which needs COLUMN scaling)
+         matRS == MSub(MScale(RAdd(One, Xi), Ident(n)), MScale(Theta, RowScale(HV, jac)))
+     IN resid' = IF "RowScaledLocal" \in ImplDeviations THEN Solve(matRS, rhs) ELSE VHad(VInv(HV), x)
   /\ pc' = "add"
-  /\ UNCHANGED <<n, op, ikind, hh, q, qprev, qprev2, time, nsteps, jac, jacCached, last, hasLast, first>>
+  /\ UNCHANGED <<n, op, ikind, hh, dtmode, q, qprev, qprev2, time, nsteps, jac, jacCached, last, hasLast, first>>
 
 AddRes == /\ pc = "add"
           /\ LET twice == first /\ "GearDoubleAdd" \in ImplDeviations
-                 inc == VScale(IF twice THEN RMul(R(2), hh) ELSE hh, resid)
+                 inc == VHad(IF twice THEN VScale(R(2), HV) ELSE HV, resid)
              IN /\ q' = VAdd(q, inc)
                 /\ time' = RAdd(time, IF twice THEN RMul(R(2), hh) ELSE hh)
           /\ qprev' = q /\ qprev2' = qprev
@@ -93,7 +109,7 @@ AddRes == /\ pc = "add"
           /\ hasLast' = (ikind = "gear")
           /\ first' = FALSE
           /\ pc' = "jac"
-          /\ UNCHANGED <<n, op, ikind, hh, jac, jacCached, resid>>
+          /\ UNCHANGED <<n, op, ikind, hh, dtmode, jac, jacCached, resid>>
 
 INext == CalcJacobian \/ CalcRhs \/ SolveImplicit \/ AddRes
 ISpec == IInit /\ [][INext]_ivars
@@ -102,9 +118,10 @@ ISpec == IInit /\ [][INext]_ivars
 A == AMat(op, n)
 I == Ident(n)
 AfterStep == pc = "jac" /\ nsteps > 0
-RelImplicit == MVec(MSub(I, MScale(hh, A)), q) = qprev
-RelCN == MVec(MSub(I, MScale(RMul(Half, hh), A)), q) = MVec(MAdd(I, MScale(RMul(Half, hh), A)), qprev)
-RelBDF2 == VAdd(VSub(VScale(R(3), q), VScale(R(4), qprev)), qprev2) = VScale(RMul(R(2), hh), MVec(A, q))
+DA == RowScale(HV, A)                      \* diag(dt) A  ( = dt A for a scalar step)
+RelImplicit == MVec(MSub(I, DA), q) = qprev
+RelCN == MVec(MSub(I, MScale(Half, DA)), q) = MVec(MAdd(I, MScale(Half, DA)), qprev)
+RelBDF2 == VAdd(VSub(VScale(R(3), q), VScale(R(4), qprev)), qprev2) = VScale(R(2), MVec(DA, q))
 
 DefiningRelation ==
   AfterStep => CASE ikind = "implicit" -> RelImplicit
@@ -112,9 +129,9 @@ DefiningRelation ==
                  [] ikind = "gear" -> IF nsteps = 1 THEN RelCN ELSE RelBDF2
 TimeAdvances == time = RMul(R(nsteps), hh)
 (* conservation: the columns of a conservative operator sum to zero, so sum(q) is invariant (C01 for implicit solves) *)
-Conserved == RSum(q) = RSum(qprev)
+Conserved == dtmode = "global" => RSum(q) = RSum(qprev)      \* (local steps trade time accuracy and conservation for speed)
 (* no growth for Re z <= 0 (upwind: normal circulant, eigenvalues in the left half plane): the l2 norm never grows *)
-NoGrowth == (op = "upwind" /\ ikind # "gear" /\ nsteps = 1 /\ n <= 3 /\ RLe(hh, R(4))) => RLe(Dot(q, q), Dot(qprev, qprev))
+NoGrowth == (dtmode = "global" /\ op = "upwind" /\ ikind # "gear" /\ nsteps = 1 /\ n <= 3 /\ RLe(hh, R(4))) => RLe(Dot(q, q), Dot(qprev, qprev))
 (* the FD Jacobian of a linear operator is the operator *)
 JacobianExact == (jacCached /\ "NoisyJacobian" \notin ImplDeviations) => jac = A
 =============================================================================
